@@ -15,6 +15,7 @@
     `Diff`, `Arrange`, the index and key walks, CREATE TABLE — does not see it and prints no ADD COLUMN.
 -/
 import SqlizeModel.Proofs.IgnoreOrder
+import SqlizeModel.Proofs.StripExec
 import SqlizeModel.Props.C01
 import SqlizeModel.Abs.Columns
 import SqlizeModel.Proofs.WalkRefine
@@ -100,5 +101,13 @@ theorem option_predicates (g : Globals) (old new u dn : List Stmt)
 example : ∃ u ui, modelUp {} C01.exOldW C01.exNewW = .ok u ∧ modelUp { ignoreOrder := true } C01.exOldW C01.exNewW = .ok ui ∧
     (u.filter Spec.hasPosition).length = 1 ∧ (ui.filter Spec.hasPosition).length = 0 ∧ ui = u.map Spec.stripPosition :=
   ⟨_, _, by rfl, by rfl, by decide, by decide, by decide⟩
+
+/-- **under the option, on the reference engine**: the migration printed with the option is accepted statement by statement
+    whenever the one printed without it is, and it ends in the same schema up to the order of the columns inside the
+    tables (same column records, keys, indexes) — every statement kind, any script (Proofs/StripExec.lean) -/
+theorem stripped_migration_same_schema (rc : Bool) (ss : List Stmt) (db db1 : Spec.DB)
+    (h : Spec.execAll rc db ss = some db1) :
+    ∃ db2, Spec.execAll rc db (ss.map Spec.stripPosition) = some db2 ∧ DBR db1 db2 :=
+  execAll_strip rc ss (DBR.refl db) h
 
 end Sqlize.C13
